@@ -210,6 +210,26 @@ func init() {
 		Gen:  func(t *rapid.T) *Case { return GenCase(t, p34) },
 		Rule: "2-5 clients doing short transactions with dense schedule points in readTs/newCommitTs/doneCommit and in both WaterMark.process goroutines; invariants: (i) when NewTransaction returns readTs no commit <= readTs is still in flight and every acknowledged commit is <= readTs, (ii) at every watermark advance d0->d1 no index in (d0,d1] has Begin without Done, (iii) every waiter is released (deadlock detector + step budget). non-trivial = run in which a transaction began while another commit was in flight",
 	})
+	// C10 SyncWrites vs power loss
+	p10 := profT("R-C10")
+	p10.MinClients, p10.MaxClients, p10.MaxOps = 1, 3, 12
+	p10.WIter, p10.WGet = 1, 2
+	p10.WSet, p10.WDel = 8, 3
+	p10.WCommitWith = 2
+	p10.Groups = [][]string{nil}
+	p10.MaxDec = 60
+	register(&Scenario{Prop: "C10", Family: "R", Level: "fault_enumeration", Profile: p10,
+		Gen: func(t *rapid.T) *Case {
+			c := GenCase(t, p10)
+			c.Cfg.SyncWrites = true
+			c.Faults.CrashEvery = 1
+			c.Faults.Power = true
+			return c
+		},
+		Run:  func(t *testing.T, c *Case, keep bool) Outcome { return ExecuteCrash(t, c, p10, keep) },
+		Rule: "as C08 with SyncWrites=true; at EVERY persistence event a power-loss image is built from the durable-state tracker (per file: content at its last msync/fsync/O_DSYNC write; per directory: the entries present at its last directory fsync; a linked but never-synced file appears zero-filled at its creation size) and re-opened with the real code; oracles as C08 with acknowledged = Commit returned nil / callback got nil. evaluations = histories; the number of verified power-loss images is in probes",
+		Assume: []string{"strict power-loss model as the property states it: only explicitly synced file contents and directory entries covered by a directory fsync survive", "fd-file syncs (MANIFEST rewrite, KEYREGISTRY) are reported by vhook lines next to the call; the MANIFEST append fsync is reported through the syncFunc seam; mmap-file syncs are reported from inside the instrumented ristretto copy"},
+	})
 	// C04 own writes
 	p4 := profT("T-C04")
 	p4.WIter = 5
